@@ -108,6 +108,29 @@ Theorem C13_column_positions : forall widths x0 bsx j,
 Proof. exact column_positions_spec. Qed.
 Print Assumptions C13_column_positions.
 
+(* a table split across pages: tableLayout runs once per page on the same table
+   box and every fragment keeps the ColumnPositions slice of its page
+   (Layout/TableGeom.v: Go slice headers into a store of arrays, a fresh array
+   per call).  After ALL pages are laid out every fragment still reads the
+   positions computed for its own page, whatever the arithmetic ... *)
+Theorem C13_fragments_positions : forall ar bsx pages,
+  fragments_positions ar bsx pages = map (fun p => column_positions ar (fst p) bsx (snd p)) pages.
+Proof. exact fragments_positions_spec. Qed.
+Print Assumptions C13_fragments_positions.
+
+(* ... hence the closed form, with the content box and the column widths the
+   table has on THAT page (Check/C13.v, case CPaged, codes 18 / 19) *)
+Theorem C13_fragment_column_positions : forall bsx pages k x0 widths j,
+  nth_error pages k = Some (x0, widths) -> (j < length widths)%nat ->
+  nth j (nth k (fragments_positions exactQ bsx pages) []) 0 == col_left x0 bsx widths j.
+Proof. exact fragment_column_positions. Qed.
+Print Assumptions C13_fragment_column_positions.
+
+(* two pages whose content boxes start at 60 and at 0: the first fragment keeps 62 / 114 *)
+Example C13_example_fragments :
+  fragments_positions exactQ 2 [(60, [50; 30]); (0, [50; 30])] = [[62; 114]; [2; 54]].
+Proof. vm_compute. reflexivity. Qed.
+
 (* every cell: colspan clipped to the grid; its left edge is the left edge of
    its first column (so cells starting in the same column share their left
    edge), its right edge the right edge of its last column (cells ending in the
@@ -204,6 +227,15 @@ Theorem C13_distribute_excess_conserves : forall cols cw excess cw' e',
   length cw' = length cw /\ 0 <= e' /\ sumQ cw' == sumQ cw + excess - e'.
 Proof. exact distribute_excess_spec. Qed.
 Print Assumptions C13_distribute_excess_conserves.
+
+(* the fifth group is reachable: two constrained columns without percentage, the
+   second one made of empty cells only; the excess 300 goes to that column and
+   nothing is returned (so the caller neither shrinks the table nor distributes
+   it a second time) *)
+Example C13_example_fifth_group :
+  distribute_excess exactQ [mkAC 50 100 0 true true false; mkAC 0 0 0 true true true] [100; 0] 300 = ([100; 300], 0) /\
+  auto_table_layout exactQ (Some 400) 1600 50 100 0 [mkAC 50 100 0 true true false; mkAC 0 0 0 true true true] = ([100; 300], 400).
+Proof. split; vm_compute; reflexivity. Qed.
 
 (* "the used width is never below the specified width" (CSS 2.1 17.5.2.2) is
    FALSE of the faithful model: when every column is constrained
